@@ -29,7 +29,13 @@ ASSUMPTIONS = [
     "buffers are compared as whole objects (a subview aliases its whole parent buffer)",
     "control flow is data independent (trip counts are arguments), so per-core event lists are obtained by one interpretation per core id",
 ]
-BOUNDS = {"quick": dict(ops=3, depth=1, trips=[0, 1, 2], cores=2), "thorough": dict(ops=4, depth=2, trips=[0, 1, 2], cores=2)}
+BOUNDS = {
+    "quick": dict(ops=3, depth=1, trips=[0, 1, 2], cores=2, to_func=False),
+    # thorough: nested loops (depth 2), three cores (DM = core 2, compute = core 0, core 1 idle but at every barrier) and the
+    # snax-to-func lowering (barriers become calls to snax_cluster_hw_barrier, deallocs are erased)
+    "thorough": dict(ops=3, depth=2, trips=[0, 1, 2], cores=3, to_func=True),
+}
+_TIER = ["quick"]
 CASE_TIMEOUT = 60
 MT = "memref<8xi32>"
 GEN = ('linalg.generic {{indexing_maps = [affine_map<(d0) -> (d0)>, affine_map<(d0) -> (d0)>], iterator_types = ["parallel"]}} '
@@ -90,6 +96,7 @@ def build_text(prog, variant):
 
 
 def space(tier):
+    _TIER[0] = tier
     b = BOUNDS[tier]
     bufs = ["a", "b", "c"]
     leaves = [("D", s, d) for s in bufs for d in bufs if s != d] + [("C", s, d) for s in bufs for d in bufs if s != d] + [("B",)]
@@ -180,7 +187,8 @@ def make_args(variant, trips, conds):
     return args + list(conds) + list(trips)
 
 
-def evaluate(case, only=None, tier="quick") -> CaseResult:
+def evaluate(case, only=None, tier=None) -> CaseResult:
+    tier = tier or _TIER[0]
     prog, variant = case
     r = CaseResult()
     text, nfor, nif = build_text(prog, variant)
@@ -192,7 +200,7 @@ def evaluate(case, only=None, tier="quick") -> CaseResult:
     b = BOUNDS[tier]
     ncores = b["cores"]
     out = base.clone()
-    pipeline = f"insert-sync-barrier,dispatch-regions{{nb_cores={ncores}}}"
+    pipeline = f"insert-sync-barrier,dispatch-regions{{nb_cores={ncores}}}" + (",snax-to-func" if b["to_func"] else "")
     try:
         common.run_pipeline(out, pipeline)
     except Exception as e:
